@@ -22,6 +22,8 @@ adjacent sibling defines.
 LEVEL = "proof"
 
 import os
+import shutil
+import tempfile
 
 from lib import common
 from checks.parts import evaldiff
@@ -39,9 +41,9 @@ def run(ctx):
     if not ok:
         ctx.correspondence_broken("ocaml-build", log[-3000:])
         return
-    tmp = os.path.join(ctx.outdir, "corpus_tmp")
-    os.makedirs(tmp, exist_ok=True)
+    tmp = tempfile.mkdtemp(prefix="corpus_", dir=ctx.outdir)
     ncorpus = c02mod.report_corpus(ctx, nevrun, tmp, CORPUS, "C08")
+    shutil.rmtree(tmp, ignore_errors=True)
     n = 2100 if ctx.tier == "quick" else 27000
     r = evaldiff.run_evaldiff(ctx, PROFILES, n, ctx.tier, variants=("o", "u", "r"), nevrun=nevrun,
                               shrink_max=2 if ctx.tier == "quick" else 4)
